@@ -1,0 +1,41 @@
+//go:build verif
+
+package scheduler
+
+import (
+	"github.com/uber-go/tally"
+
+	"github.com/uber/kraken/core"
+	"github.com/uber/kraken/lib/torrent/networkevent"
+	"github.com/uber/kraken/lib/torrent/scheduler/announcequeue"
+	"github.com/uber/kraken/lib/torrent/storage"
+	"github.com/uber/kraken/tracker/announceclient"
+)
+
+// VerifC14NewScheduler builds and starts a scheduler exactly the way
+// NewAgentScheduler / NewOriginScheduler do (newScheduler + start), but around
+// a caller-supplied torrent archive and announce client. announce selects the
+// agent announce queue (true) or the disabled origin one (false). Test-only
+// seam for the C14 / C19 runtime monitors; no logic of its own.
+func VerifC14NewScheduler(
+	config Config,
+	ta storage.TorrentArchive,
+	stats tally.Scope,
+	pctx core.PeerContext,
+	announceClient announceclient.Client,
+	netevents networkevent.Producer,
+	announce bool) (Scheduler, error) {
+
+	s, err := newScheduler(config, ta, stats, pctx, announceClient, netevents)
+	if err != nil {
+		return nil, err
+	}
+	var aq announcequeue.Queue = announcequeue.Disabled()
+	if announce {
+		aq = announcequeue.New()
+	}
+	if err := s.start(aq); err != nil {
+		return nil, err
+	}
+	return s, nil
+}
